@@ -6,6 +6,7 @@ import (
 	"bufio"
 	"bytes"
 	"context"
+	"crypto/sha1"
 	"crypto/sha256"
 	"encoding/json"
 	"errors"
@@ -54,6 +55,14 @@ type procStepT struct {
 	Unit    int    `json:"unit"`    // index of the publisher's unit this step is made from
 	Corrupt string `json:"corrupt"` // "" = as is
 	Sender  string `json:"sender"`  // "legit" | "other" | "outsider" | "publisher" | "local"
+	// M: which message of the publisher (0 = the scenario's message; m > 0: the same bytes published
+	// with nonce+m — another message key)
+	M int `json:"m,omitempty"`
+	// Variant (Corrupt "garbage"): makes the message key of the garbage unit distinct; Pub >= 0 names
+	// the committee member with that index (skipping the local peer) as publisher
+	Variant int `json:"variant,omitempty"`
+	Pub0    int `json:"pub0,omitempty"` // 0: the scenario's publisher; i > 0: the (i-1)-th other member
+	// Corrupt "expire": no unit; wait until the subprocessor of message M has timed out
 }
 
 type procScenario struct {
@@ -70,6 +79,17 @@ type procScenario struct {
 	// Once: every unit is handed over exactly once, as the engine does (no retry when the
 	// processor answers "processor channel full")
 	Once bool `json:"once,omitempty"`
+	// task bounds to set on the Processor (0 = leave the real 1000 / 250)
+	MaxWorkers      int `json:"max_workers,omitempty"`
+	MaxPerPublisher int `json:"max_per_publisher,omitempty"`
+	// StaleMessageTimeout in ms (0 = 60 s)
+	StaleMs int `json:"stale_ms,omitempty"`
+	// ModelOnly: several messages / time-outs are in play; the single-message oracle is skipped (the
+	// counter oracle and the model comparison apply)
+	ModelOnly bool `json:"model_only,omitempty"`
+	// Expect: the model's task counters after each step (tasks, publisherTasks[publisher of the
+	// step's unit]); the child waits (briefly) until the real counters get there, then reports them
+	Expect [][2]uint64 `json:"expect,omitempty"`
 }
 
 type procEvent struct {
@@ -82,6 +102,11 @@ type procLine struct {
 	Res    string      `json:"res,omitempty"`  // "nil" | "err:route" | "err:other:<text>" | "stuck"
 	Events []procEvent `json:"events"`         // events observed since the previous line
 	Note   string      `json:"note,omitempty"` // "run-panic: …"
+	// task counters after the step (read under the Processor's own mutex), when they could be read
+	Tasks  *uint64 `json:"tasks,omitempty"`
+	PTasks *uint64 `json:"ptasks,omitempty"`
+	// final line: counters and number of live subprocessors once they have settled
+	Live *int `json:"live,omitempty"`
 	// evidence collected by the child (never inferred from the scenario)
 	Ev *procEvidence `json:"evidence,omitempty"`
 }
@@ -111,6 +136,26 @@ type procWorld struct {
 	k, c     int
 	localIdx int
 	keyless  peer.ID
+	variants map[int][]propeller.Unit
+}
+
+// unitsOf: the units of message m of the publisher (m = 0: the scenario's message).
+func (w *procWorld) unitsOf(m int) []propeller.Unit {
+	if m == 0 {
+		return w.units
+	}
+	if us, ok := w.variants[m]; ok {
+		return us
+	}
+	us, err := propeller.CreatePropellerUnits(w.pub.priv, &w.cid, propeller.Nonce(w.nonce+uint64(m)), w.msg, w.k, w.c)
+	if err != nil {
+		panic(err)
+	}
+	if w.variants == nil {
+		w.variants = map[int][]propeller.Unit{}
+	}
+	w.variants[m] = us
+	return us
 }
 
 func newProcWorld(sc *procScenario) (*procWorld, error) {
@@ -148,10 +193,24 @@ func newProcWorld(sc *procScenario) (*procWorld, error) {
 // stepUnit builds the unit and the sender of one step (deterministic: no randomness).
 func (w *procWorld) stepUnit(st procStepT) (*propeller.Unit, peer.ID) {
 	total := w.k + w.c
-	u := cloneUnit(&w.units[st.Unit%total])
+	u := cloneUnit(&w.unitsOf(st.M)[st.Unit%total])
 	sender, _ := legitSender(w.sched, w.local.id, w.pub.id, int(u.ShardIndex))
 	switch st.Corrupt {
 	case "":
+	case "garbage":
+		// a FIRST unit of a message key nobody has seen (distinct per Variant), whose shard does not
+		// match its proof: correctly rejected; what it costs the receiver is the question
+		u.Nonce += propeller.Nonce(1_000_000 + st.Variant)
+		u.ShardData[0][0] ^= 0x5a
+		if st.Pub0 > 0 {
+			var others []member
+			for _, m := range w.ms {
+				if m.id != w.local.id && m.id != w.keyless {
+					others = append(others, m)
+				}
+			}
+			u.Publisher = others[(st.Pub0-1)%len(others)].id
+		}
 	case "shard-flip":
 		u.ShardData[0][0] ^= 1
 	case "proof-flip":
@@ -248,7 +307,19 @@ func procChild(path string) {
 	}
 	cfg := propeller.DefaultConfig()
 	cfg.StaleMessageTimeout = 60 * time.Second
+	if sc.StaleMs > 0 {
+		cfg.StaleMessageTimeout = time.Duration(sc.StaleMs) * time.Millisecond
+	}
 	p, events := propeller.NewProcessor(w.local.id, &cfg)
+	probe, perr := newTaskProbe(p)
+	if perr == nil && (sc.MaxWorkers > 0 || sc.MaxPerPublisher > 0) {
+		perr = probe.setBounds(uint64(sc.MaxWorkers), uint64(sc.MaxPerPublisher))
+	}
+	if perr != nil {
+		// the harness relies on the layout of Processor's task accounting: a failure of the machinery
+		fmt.Fprintln(os.Stderr, "child: task probe:", perr)
+		os.Exit(3)
+	}
 	ctx, cancel := context.WithCancel(context.Background())
 	defer cancel()
 	ev := &procEvidence{LoggerNil: fieldIsNil(p, "logger")}
@@ -335,8 +406,45 @@ func procChild(path string) {
 		}
 		return ev
 	}
+	// await: the counters the model expects after step i (when the parent sent them) are reached as
+	// soon as Run has handled what the step caused; wait for that — briefly, and only until the first
+	// time it does not happen — then report what is there
+	gaveUp := false
+	await := func(i int, pub peer.ID, patience time.Duration) (uint64, uint64) {
+		tk, pt, _ := probe.read(pub)
+		if i >= len(sc.Expect) || gaveUp {
+			return tk, pt
+		}
+		want := sc.Expect[i]
+		deadline := time.Now().Add(patience)
+		for n := 0; tk != want[0] || pt != want[1]; n++ {
+			if time.Now().After(deadline) && n >= 200 {
+				gaveUp = true
+				break
+			}
+			drain()
+			time.Sleep(200 * time.Microsecond)
+			tk, pt, _ = probe.read(pub)
+		}
+		return tk, pt
+	}
 	prev := -2
 	for i, st := range sc.Steps {
+		if st.Corrupt == "expire" {
+			// no unit: the subprocessor of message st.M runs into its time-out
+			tk, pt := await(i, w.pub.id, 4*cfg.StaleMessageTimeout+2*time.Second)
+			if len(sc.Expect) == 0 {
+				time.Sleep(2 * cfg.StaleMessageTimeout)
+				tk, pt, _ = probe.read(w.pub.id)
+			}
+			if prev != -2 {
+				emit(procLine{Step: prev, Res: "events-of-previous", Events: pending, Note: note()})
+			}
+			pending = nil
+			emit(procLine{Step: i, Res: "nil", Tasks: &tk, PTasks: &pt})
+			prev = i
+			continue
+		}
 		u, sender := w.stepUnit(st)
 		res := hand(u, sender)
 		// events drained while handing step i over belong to the steps before it
@@ -344,7 +452,12 @@ func procChild(path string) {
 			emit(procLine{Step: prev, Res: "events-of-previous", Events: pending, Note: note()})
 		}
 		pending = nil
-		emit(procLine{Step: i, Res: res})
+		if sc.Once || res == "stuck" {
+			emit(procLine{Step: i, Res: res})
+		} else {
+			tk, pt := await(i, u.Publisher, time.Second)
+			emit(procLine{Step: i, Res: res, Tasks: &tk, PTasks: &pt})
+		}
 		prev = i
 		if sc.Once {
 			time.Sleep(3 * time.Millisecond) // let the subprocessor work; nothing is retried
@@ -373,9 +486,133 @@ func procChild(path string) {
 		emit(procLine{Step: -1, Res: res, Note: note(), Ev: stuckEvidence()})
 	} else {
 		ev.HonestKeyFinalized = keyFinalized(p, &w.units[0])
-		emit(procLine{Step: -1, Res: res, Note: note(), Ev: ev})
+		// settle: every ended subprocessor has been handled by Run when `tasks` equals the number of
+		// live subprocessors (they differ only between decreaseTask and the deletion); a leak or a
+		// double release never gets there
+		tk, _, live := probe.read(w.pub.id)
+		for n := 0; n < 2500 && live >= 0 && tk != uint64(live); n++ {
+			drain()
+			time.Sleep(400 * time.Microsecond)
+			tk, _, live = probe.read(w.pub.id)
+		}
+		if live < 0 {
+			emit(procLine{Step: -1, Res: res, Note: note(), Ev: ev})
+		} else {
+			sum := probe.sumPublisherTasks()
+			emit(procLine{Step: -1, Res: res, Note: note(), Ev: ev, Tasks: &tk, PTasks: &sum, Live: &live})
+		}
 	}
 	os.Exit(0)
+}
+
+// taskProbe reads (and, for small-bound scenarios, sets) the unexported task accounting of the
+// Processor: tasks, publisherTasks, concurrentTasksBounds, under the Processor's own mutexes.
+type taskProbe struct {
+	mu, subMu     *sync.Mutex
+	tasks, ptasks reflect.Value
+	subs, bounds  reflect.Value
+}
+
+func newTaskProbe(p *propeller.Processor) (t *taskProbe, err error) {
+	defer func() {
+		if r := recover(); r != nil {
+			err = fmt.Errorf("%v", r)
+		}
+	}()
+	v := reflect.ValueOf(p).Elem()
+	field := func(name string) (reflect.Value, error) {
+		f := v.FieldByName(name)
+		if !f.IsValid() {
+			return f, fmt.Errorf("Processor has no field %q", name)
+		}
+		return reflect.NewAt(f.Type(), unsafe.Pointer(f.UnsafeAddr())).Elem(), nil
+	}
+	t = &taskProbe{}
+	mu, err := field("mu")
+	if err != nil {
+		return nil, err
+	}
+	m, ok := mu.Addr().Interface().(*sync.Mutex)
+	if !ok {
+		return nil, fmt.Errorf("Processor.mu is a %s", mu.Type())
+	}
+	t.mu = m
+	if sm, e := field("subMu"); e == nil { // (absent before 5db92d3)
+		if m, ok := sm.Addr().Interface().(*sync.Mutex); ok {
+			t.subMu = m
+		}
+	}
+	if t.tasks, err = field("tasks"); err != nil {
+		return nil, err
+	}
+	if t.ptasks, err = field("publisherTasks"); err != nil {
+		return nil, err
+	}
+	if t.subs, err = field("subProcessors"); err != nil {
+		return nil, err
+	}
+	if t.bounds, err = field("concurrentTasksBounds"); err != nil {
+		return nil, err
+	}
+	if t.tasks.Kind() != reflect.Uint64 || t.ptasks.Kind() != reflect.Map || t.subs.Kind() != reflect.Map || t.bounds.Kind() != reflect.Struct {
+		return nil, fmt.Errorf("unexpected types of the task accounting fields")
+	}
+	return t, nil
+}
+
+func (t *taskProbe) read(pub peer.ID) (tasks, ptasks uint64, live int) {
+	t.mu.Lock()
+	tasks = t.tasks.Uint()
+	if e := t.ptasks.MapIndex(reflect.ValueOf(pub)); e.IsValid() {
+		ptasks = e.Uint()
+	}
+	t.mu.Unlock()
+	if t.subMu == nil {
+		// (before 5db92d3 nothing guards the map: not read at all, the harness must not race with it)
+		return tasks, ptasks, -1
+	}
+	t.subMu.Lock()
+	defer t.subMu.Unlock()
+	return tasks, ptasks, t.subs.Len()
+}
+
+func (t *taskProbe) sumPublisherTasks() (sum uint64) {
+	t.mu.Lock()
+	defer t.mu.Unlock()
+	it := t.ptasks.MapRange()
+	for it.Next() {
+		sum += it.Value().Uint()
+	}
+	return sum
+}
+
+func (t *taskProbe) setBounds(maxW, maxPP uint64) (err error) {
+	defer func() {
+		if r := recover(); r != nil {
+			err = fmt.Errorf("%v", r)
+		}
+	}()
+	set := func(name string, x uint64) error {
+		f := t.bounds.FieldByName(name)
+		if !f.IsValid() || f.Kind() != reflect.Uint64 {
+			return fmt.Errorf("concurrentTasksBounds has no uint64 field %q", name)
+		}
+		reflect.NewAt(f.Type(), unsafe.Pointer(f.UnsafeAddr())).Elem().SetUint(x)
+		return nil
+	}
+	t.mu.Lock()
+	defer t.mu.Unlock()
+	if maxW > 0 {
+		if err := set("maxWorkers", maxW); err != nil {
+			return err
+		}
+	}
+	if maxPP > 0 {
+		if err := set("maxWorkersPerPublisher", maxPP); err != nil {
+			return err
+		}
+	}
+	return nil
 }
 
 // keyFinalized: is extractKey(u) in p.finalized? (reflection over unexported fields; read-only)
@@ -517,6 +754,10 @@ func runProcChild(sc *procScenario) procRun {
 		}
 	}
 	pr.stderr = se.String()
+	if strings.HasPrefix(pr.stderr, "child:") && pr.machinery == "" {
+		pr.machinery = strings.TrimSpace(pr.stderr)
+		noteMachinery(pr.machinery)
+	}
 	for _, l := range strings.Split(so.String(), "\n") {
 		if strings.TrimSpace(l) == "" {
 			continue
@@ -534,6 +775,16 @@ type stepObs struct {
 	res    string
 	events []procEvent
 	seen   bool
+	// task counters after the step
+	tasks, ptasks uint64
+	hasTasks      bool
+}
+
+// slimScenario: the scenario without the (long) expectation list, for reports.
+func slimScenario(sc *procScenario) *procScenario {
+	c := *sc
+	c.Expect = nil
+	return &c
 }
 
 func collect(pr procRun, n int) (obs []stepObs, final string, notes []string) {
@@ -562,6 +813,9 @@ func collectEv(pr procRun, n int) (obs []stepObs, final string, notes []string, 
 		} else {
 			obs[l.Step].res = l.Res
 			obs[l.Step].seen = true
+			if l.Tasks != nil && l.PTasks != nil {
+				obs[l.Step].tasks, obs[l.Step].ptasks, obs[l.Step].hasTasks = *l.Tasks, *l.PTasks, true
+			}
 		}
 	}
 	return
@@ -571,6 +825,15 @@ func stepsString(steps []procStepT) string {
 	p := make([]string, len(steps))
 	for i, s := range steps {
 		p[i] = fmt.Sprintf("%d%s/%s", s.Unit, map[bool]string{true: "!" + s.Corrupt, false: ""}[s.Corrupt != ""], s.Sender)
+		if s.M != 0 {
+			p[i] += fmt.Sprintf("@m%d", s.M)
+		}
+		if s.Corrupt == "garbage" {
+			p[i] = fmt.Sprintf("garbage#%d", s.Variant)
+			if s.Pub0 > 0 {
+				p[i] += fmt.Sprintf("→p%d", s.Pub0)
+			}
+		}
 	}
 	return strings.Join(p, " ")
 }
@@ -600,8 +863,29 @@ func procCaseWith(h *hctx, sc *procScenario, pre *procRun) {
 	h.guard("processor-harness", map[string]any{"kind": "processor", "scenario": sc}, func() { procCase0(h, sc, pre) })
 }
 
+// prepareTrace: the model's trace of the scenario (computed BEFORE the child runs: its task counters
+// are what the child waits for after each step). nil when there is no model to compare with.
+func prepareTrace(h *hctx, sc *procScenario, w *procWorld) []traceStep {
+	if !h.pcfg.ProcWired || h.driverBroken || sc.Once {
+		return nil
+	}
+	if t, ok := h.traces[sc]; ok {
+		return t
+	}
+	t := procModelTrace(h, sc, w)
+	if h.traces == nil {
+		h.traces = map[*procScenario][]traceStep{}
+	}
+	h.traces[sc] = t
+	sc.Expect = nil
+	for _, x := range t {
+		sc.Expect = append(sc.Expect, [2]uint64{x.tasks, x.ptasks})
+	}
+	return t
+}
+
 func procCase0(h *hctx, sc *procScenario, pre *procRun) {
-	rp := map[string]any{"kind": "processor", "scenario": sc}
+	rp := map[string]any{"kind": "processor", "scenario": slimScenario(sc)}
 	w, err := newProcWorld(sc)
 	if err != nil {
 		h.res.Fatalf("procCase: %v", err)
@@ -613,6 +897,8 @@ func procCase0(h *hctx, sc *procScenario, pre *procRun) {
 		return
 	}
 	h.res.Case(fmt.Sprintf("proc/%d/%d/%d/%s", sc.N, sc.Local, sc.Pub, stepsString(sc.Steps)), true)
+	trace := prepareTrace(h, sc, w)
+	defer delete(h.traces, sc)
 	var pr procRun
 	if pre != nil {
 		pr = *pre
@@ -645,7 +931,7 @@ func procCase0(h *hctx, sc *procScenario, pre *procRun) {
 	// (by the RESOLVED sender: in a committee of 2 "other" finds nobody else and stays the designated
 	// sender; "publisher" is the designated sender of the local shard)
 	isHonest := func(st procStepT) bool {
-		if st.Corrupt != "" {
+		if st.Corrupt != "" || st.M != 0 {
 			return false
 		}
 		u, snd := w.stepUnit(st)
@@ -738,6 +1024,8 @@ func procCase0(h *hctx, sc *procScenario, pre *procRun) {
 		}
 	case sc.Once:
 		// evaluated by the caller (delivery statistics)
+	case sc.ModelOnly:
+		h.res.Hit("proc:completed-several-messages")
 	default:
 		h.res.Hit("proc:completed")
 		// every broadcast is the publisher's unit for the local index, and there is at most one
@@ -765,6 +1053,18 @@ func procCase0(h *hctx, sc *procScenario, pre *procRun) {
 			h.violate("processor-builds-below-threshold", desc, rp)
 		}
 	}
+	// the task counters, once everything has settled: `tasks` = Σ publisherTasks = number of live
+	// subprocessors (read from the real Processor; no model involved)
+	for _, l := range pr.lines {
+		if l.Step == -1 && l.Live != nil && l.Tasks != nil && l.PTasks != nil && !pr.crashed && final != "stuck" {
+			h.res.Hit("proc:task-counters-read")
+			if *l.Tasks != uint64(*l.Live) || *l.PTasks != *l.Tasks {
+				h.violate("processor-task-counters-do-not-match-live-subprocessors",
+					fmt.Sprintf("after %s: tasks=%d, sum of publisherTasks=%d, live subprocessors=%d — a path that ends a subprocessor does not release exactly what createSubprocessor took (a leaked slot per rejected first unit lets %d garbage units naming a publisher shut out that publisher, %d shut out everybody; a double release wraps the unsigned counter and disables the bounds)",
+						desc, *l.Tasks, *l.PTasks, *l.Live, 250, 1000), rp)
+			}
+		}
+	}
 	if keylessStep >= 0 {
 		h.res.Hit("proc:keyless-publisher")
 	}
@@ -782,7 +1082,7 @@ func procCase0(h *hctx, sc *procScenario, pre *procRun) {
 	if !h.pcfg.ProcWired || h.driverBroken || sc.Once {
 		return
 	}
-	procModel(h, sc, w, obs, pr, rp)
+	procModel(h, sc, w, obs, pr, rp, trace)
 }
 
 func keepsKey(corrupt string) bool {
@@ -817,63 +1117,127 @@ func firstPanicLines(s string) string {
 	return strings.Join(out, " | ")
 }
 
-// procModel replays the steps on the Lean model and compares step by step.
-func procModel(h *hctx, sc *procScenario, w *procWorld, obs []stepObs, pr procRun, rp map[string]any) {
-	// make the hashes of this message known as terms
-	leaves := make([][]byte, len(w.units))
-	for i := range w.units {
-		leaves[i] = leafBytes(h, &w.units[i])
+// traceStep: what the model says about one step.
+type traceStep struct {
+	ans           string // outcome: handled … | ignored | noroute | panic | expired | none
+	tasks, ptasks uint64 // the task counters after the step
+}
+
+// keyTerms: committee, publisher, root term, nonce of message m of the publisher, as driver tokens.
+func (w *procWorld) keyTokens(h *hctx, m int) string {
+	u := &w.unitsOf(m)[0]
+	return fmt.Sprintf("%s %s %s %d", hx(u.CommitteeID[:]), hx([]byte(u.Publisher)), h.tt.termOf(hash(u.MessageRoot)), uint64(u.Nonce))
+}
+
+// procModelTrace runs the steps on the Lean model (the codec's answers come from the real library)
+// and returns the model's outcome and task counters per step. nil: no trace (driver failure,
+// reported).
+func procModelTrace(h *hctx, sc *procScenario, w *procWorld) []traceStep {
+	// make the hashes of the messages in play known as terms
+	seenM := map[int]bool{}
+	for _, st := range append([]procStepT{{}}, sc.Steps...) {
+		if seenM[st.M] {
+			continue
+		}
+		seenM[st.M] = true
+		us := w.unitsOf(st.M)
+		leaves := make([][]byte, len(us))
+		for i := range us {
+			leaves[i] = leafBytes(h, &us[i])
+		}
+		modelMerkle(h, leaves)
 	}
-	modelMerkle(h, leaves)
-	if a := h.ask("preset " + h.cfg.String() + " " + h.pcfg.String() + " " + hx([]byte(w.local.id)) + " " + hexList(idList(w.ms))); a != "ok" {
+	preset := "preset " + h.cfg.String() + " " + h.pcfg.String() + " " + hx([]byte(w.local.id)) + " " + hexList(idList(w.ms))
+	if sc.MaxWorkers > 0 || sc.MaxPerPublisher > 0 {
+		mw, mp := sc.MaxWorkers, sc.MaxPerPublisher
+		if mw == 0 {
+			mw = 1000
+		}
+		if mp == 0 {
+			mp = 250
+		}
+		preset += fmt.Sprintf(" %d %d", mw, mp)
+	}
+	if a := h.ask(preset); a != "ok" {
 		h.res.Mismatch(lib.Mismatch{Sig: "processor-preset", Model: a, Impl: "ok"})
+		return nil
+	}
+	split := func(ans string) (traceStep, bool) {
+		parts := strings.Split(ans, " | ")
+		if len(parts) != 2 {
+			return traceStep{}, false
+		}
+		var t traceStep
+		t.ans = parts[0]
+		if _, err := fmt.Sscanf(parts[1], "%d %d", &t.tasks, &t.ptasks); err != nil {
+			return traceStep{}, false
+		}
+		return t, true
+	}
+	trace := make([]traceStep, 0, len(sc.Steps))
+	for _, st := range sc.Steps {
+		var ans string
+		if st.Corrupt == "expire" {
+			ans = h.ask("pexpire " + w.keyTokens(h, st.M))
+		} else {
+			u, sender := w.stepUnit(st)
+			sigok, hasKey := false, false
+			if pk, err := u.Publisher.ExtractPublicKey(); err == nil {
+				hasKey = true
+				if len(u.Signature) > 0 {
+					good, e := pk.Verify(signPayload(hash(u.MessageRoot), u.CommitteeID, uint64(u.Nonce)), u.Signature)
+					sigok = good && e == nil
+				}
+			}
+			shards := make([][]byte, len(u.ShardData))
+			for j, x := range u.ShardData {
+				shards[j] = x
+			}
+			ans = h.ask(fmt.Sprintf("pstep %s %s %s %s %s %s %d %s %d %s", b01(sigok)+b01(hasKey), hx(u.CommitteeID[:]), hx([]byte(u.Publisher)),
+				h.tt.termOf(hash(u.MessageRoot)), h.tt.termList(toHashes(u.MerkleProof.Siblings)), hx(u.Signature),
+				uint32(u.ShardIndex), hexList(shards), uint64(u.Nonce), hx([]byte(sender))))
+			if strings.HasPrefix(ans, "need-rs ") {
+				var in [][]byte
+				for _, t := range strings.Split(strings.TrimPrefix(ans, "need-rs "), ",") {
+					if t == "~" {
+						in = append(in, nil)
+					} else {
+						b, _ := unhx(t)
+						in = append(in, b)
+					}
+				}
+				rs := "none"
+				var out [][]byte
+				if err, _, _ := lib.Try(func() error {
+					var e error
+					out, e = reedsolomon.RecoverData(in, w.k, w.c)
+					return e
+				}); err == nil && out != nil {
+					rs = hexList(out)
+				}
+				ans = h.ask("prs " + rs)
+			}
+		}
+		t, ok := split(ans)
+		if !ok {
+			h.res.Fatalf("driver answered %q to a processor step", ans)
+			return nil
+		}
+		trace = append(trace, t)
+	}
+	return trace
+}
+
+// procModel compares the child's observations with the model's trace, step by step.
+func procModel(h *hctx, sc *procScenario, w *procWorld, obs []stepObs, pr procRun, rp map[string]any, trace []traceStep) {
+	if len(trace) != len(sc.Steps) {
 		return
 	}
 	var modelEvents []string
 	afterEnd := false
 	endStep := len(sc.Steps)
-	for i, st := range sc.Steps {
-		u, sender := w.stepUnit(st)
-		sigok, hasKey := false, false
-		if pk, err := u.Publisher.ExtractPublicKey(); err == nil {
-			hasKey = true
-			if len(u.Signature) > 0 {
-				good, e := pk.Verify(signPayload(hash(u.MessageRoot), u.CommitteeID, uint64(u.Nonce)), u.Signature)
-				sigok = good && e == nil
-			}
-		}
-		shards := make([][]byte, len(u.ShardData))
-		for j, x := range u.ShardData {
-			shards[j] = x
-		}
-		ans := h.ask(fmt.Sprintf("pstep %s %s %s %s %s %s %d %s %d %s", b01(sigok)+b01(hasKey), hx(u.CommitteeID[:]), hx([]byte(u.Publisher)),
-			h.tt.termOf(hash(u.MessageRoot)), h.tt.termList(toHashes(u.MerkleProof.Siblings)), hx(u.Signature),
-			uint32(u.ShardIndex), hexList(shards), uint64(u.Nonce), hx([]byte(sender))))
-		if strings.HasPrefix(ans, "need-rs ") {
-			var in [][]byte
-			for _, t := range strings.Split(strings.TrimPrefix(ans, "need-rs "), ",") {
-				if t == "~" {
-					in = append(in, nil)
-				} else {
-					b, _ := unhx(t)
-					in = append(in, b)
-				}
-			}
-			rs := "none"
-			var out [][]byte
-			if err, _, _ := lib.Try(func() error {
-				var e error
-				out, e = reedsolomon.RecoverData(in, w.k, w.c)
-				return e
-			}); err == nil && out != nil {
-				rs = hexList(out)
-			}
-			ans = h.ask("prs " + rs)
-		}
-		if ans == "" || ans == "bad-op" {
-			h.res.Fatalf("driver answered %q to a processor step", ans)
-			return
-		}
+	for i := range sc.Steps {
+		ans := trace[i].ans
 		// implementation side of step i: what ProcessMessage answered (events are compared at the
 		// end: a unit of another message key does not wait for this key's subprocessor, so events
 		// cannot be attributed to steps reliably)
@@ -884,7 +1248,7 @@ func procModel(h *hctx, sc *procScenario, w *procWorld, obs []stepObs, pr procRu
 		mod := ans
 		f := strings.Fields(ans)
 		switch {
-		case ans == "ignored":
+		case ans == "ignored" || ans == "expired" || ans == "none":
 			mod = "nil"
 		case ans == "noroute":
 			mod = "noroute"
@@ -900,8 +1264,8 @@ func procModel(h *hctx, sc *procScenario, w *procWorld, obs []stepObs, pr procRu
 			}
 			if f[3] != "none" {
 				// the subprocessor ended: Run forgets it and (unless it was a discarded first-invalid
-				// one) caches the key, in two unlocked steps; what a unit arriving in between does is
-				// a race in the code under test, so later divergence is counted, not compared
+				// one) caches the key; what a unit arriving in between does was a race before 5db92d3,
+				// so later divergence is counted and re-run, not compared at once
 				afterEnd = true
 			}
 		case ans == "panic":
@@ -928,6 +1292,16 @@ func procModel(h *hctx, sc *procScenario, w *procWorld, obs []stepObs, pr procRu
 			h.res.Mismatch(lib.Mismatch{Sig: "processor-step", Input: map[string]any{"scenario": sc, "step": i}, Model: clip(mod), Impl: clip(impl)})
 			return
 		}
+		// the task counters after the step (the child waited for the model's values, briefly)
+		if obs[i].hasTasks {
+			h.res.Compared(1)
+			if obs[i].tasks != trace[i].tasks || obs[i].ptasks != trace[i].ptasks {
+				h.res.Mismatch(lib.Mismatch{Sig: "processor-task-counters", Input: map[string]any{"scenario": slimScenario(sc), "step": i},
+					Model: fmt.Sprintf("tasks=%d publisherTasks=%d", trace[i].tasks, trace[i].ptasks),
+					Impl:  fmt.Sprintf("tasks=%d publisherTasks=%d", obs[i].tasks, obs[i].ptasks)})
+				return
+			}
+		}
 	}
 	if pr.crashed {
 		if afterEnd {
@@ -946,6 +1320,11 @@ func procModel(h *hctx, sc *procScenario, w *procWorld, obs []stepObs, pr procRu
 		}
 	}
 	h.res.Compared(1)
+	if sc.ModelOnly {
+		// several messages: their subprocessors broadcast independently, only the set is determined
+		sort.Strings(modelEvents)
+		sort.Strings(implEvents)
+	}
 	if strings.Join(modelEvents, "+") != strings.Join(implEvents, "+") {
 		honestLocal := renderUnit(&w.units[w.localIdx])
 		extraOnlyLocal := len(implEvents) > len(modelEvents) && strings.HasPrefix(strings.Join(implEvents, "+"), strings.Join(modelEvents, "+"))
@@ -1157,6 +1536,67 @@ func secProcessor(h *hctx, r *lib.RNG) {
 			}
 		}
 	}
+	// TASK ACCOUNTING (theorems processor_task_counters, rejected_units_release_their_slots): long
+	// prefixes of correctly REJECTED first units — distinct message keys, so each one creates a
+	// subprocessor that is discarded at once — must cost nothing: afterwards an honest message is
+	// built. One more than the per-publisher bound naming the honest publisher, then one more than the
+	// global bound naming everybody in turn. Small bounds (set by reflection) at several sizes; the
+	// real 250 / 1000 once.
+	garbage := func(from, count, pubs int) []procStepT {
+		st := make([]procStepT, count)
+		for i := range st {
+			st[i] = procStepT{Unit: i, Corrupt: "garbage", Sender: "legit", Variant: from + i}
+			if pubs > 0 {
+				st[i].Pub0 = 1 + i%pubs
+			}
+		}
+		return st
+	}
+	allIdx := func(total int) []int {
+		a := make([]int, total)
+		for i := range a {
+			a[i] = i
+		}
+		return a
+	}
+	for _, bd := range [][3]int{{7, 5, 3}, {5, 4, 2}, {8, 9, 4}} {
+		n, mw, mp := bd[0], bd[1], bd[2]
+		steps := append(garbage(0, mp+2, 0), garbage(100, mw+2, n-1)...)
+		steps = append(steps, honestSteps(allIdx(n-1))...)
+		sc := mk(n, 0, 1, 31, steps)
+		sc.MaxWorkers, sc.MaxPerPublisher = mw, mp
+		add(sc)
+		// the bound itself: mp unfinished messages of the publisher are live (one unit each, k >= 2
+		// for n >= 7), the next message is refused; a finished one frees its slot
+		if n >= 7 {
+			var st []procStepT
+			for m := 1; m <= mp+1; m++ {
+				st = append(st, procStepT{Unit: (m + 1) % (n - 1), Sender: "legit", M: m})
+			}
+			for _, i := range allIdx(n - 1) { // message 1 completes
+				st = append(st, procStepT{Unit: i, Sender: "legit", M: 1})
+			}
+			st = append(st, procStepT{Unit: 2, Sender: "legit", M: mp + 1}, procStepT{Unit: 3, Sender: "legit", M: mp + 2})
+			sc := mk(n, 0, 1, 31, st)
+			sc.MaxWorkers, sc.MaxPerPublisher, sc.ModelOnly = mw+3, mp, true
+			add(sc)
+		}
+	}
+	{
+		steps := append(garbage(0, 251, 0), garbage(1000, 1001, 6)...)
+		steps = append(steps, honestSteps(allIdx(6))...)
+		add(mk(7, 0, 1, 31, steps)) // the real bounds
+	}
+	// a subprocessor that runs into its time-out releases its slot once (and the key is finalized)
+	for _, n := range []int{7, 8} {
+		// (one live subprocessor at a time, and none left when the scenario ends: no second time-out
+		// can fall between a step and the reading of the counters)
+		st := []procStepT{{Unit: 1, Sender: "legit"}, {Corrupt: "expire"}, {Unit: 2, Sender: "legit"},
+			{Unit: 2, Sender: "legit", M: 1}, {Corrupt: "expire", M: 1}, {Unit: 3, Sender: "legit", M: 1}}
+		sc := mk(n, 0, 1, 31, st)
+		sc.StaleMs, sc.ModelOnly = 800, true
+		add(sc)
+	}
 	// a committee with a member whose peer id embeds no public key: a unit that NAMES it as
 	// publisher (nothing else about the unit matters) at various positions
 	for _, n := range []int{4, 5, 8} {
@@ -1176,6 +1616,14 @@ func secProcessor(h *hctx, r *lib.RNG) {
 		sc := mk(n, 1, 0, 9, honestSteps(all)) // the keyless member is just present
 		sc.Keyless = true
 		add(sc)
+	}
+	// the model first: its task counters per step are what each child waits for
+	for _, sc := range scs {
+		h.guard("processor-harness", map[string]any{"kind": "processor", "scenario": slimScenario(sc)}, func() {
+			if w, err := newProcWorld(sc); err == nil {
+				prepareTrace(h, sc, w)
+			}
+		})
 	}
 	runs := runProcChildren(scs)
 	for i := range scs {
@@ -1206,6 +1654,9 @@ func secProcessor(h *hctx, r *lib.RNG) {
 		}
 	}
 	procDeliverOnce(h, mk)
+	if h.f.Thorough() {
+		raceFamily(h, mk)
+	}
 }
 
 // procDeliverOnce: the engine hands every unit over exactly once (engine.go processUnit): how
@@ -1221,6 +1672,110 @@ func procDeliverOnce(h *hctx, mk func(n, local, pub, msgLen int, steps []procSte
 		scs = append(scs, sc)
 	}
 	evalOnce(h, scs)
+}
+
+// raceFamily (thorough tier): the same Processor under Go's race detector. A second child binary is
+// built with -race; scenarios in which subprocessors end while further units are handed over make
+// ProcessMessage (the caller's goroutine) and Run (finalize / discard) touch the same state. Any
+// report of the detector that has a consensus/propeller frame is a violation (the regression of
+// 5db92d3, the unguarded subProcessors map, shows only here or as a rare runtime crash).
+func raceFamily(h *hctx, mk func(n, local, pub, msgLen int, steps []procStepT) *procScenario) {
+	bin, err := buildRaceChild()
+	if err != nil {
+		h.res.Fatalf("race child: %v", err)
+		return
+	}
+	var scs []*procScenario
+	for _, n := range []int{4, 5, 7} {
+		total := n - 1
+		all := make([]int, total)
+		for i := range all {
+			all[i] = i
+		}
+		for m := 0; m < 4; m++ {
+			// every unit twice, of three messages in turn: subprocessors finish and are finalized while
+			// units of the same and of other messages keep arriving
+			var st []procStepT
+			for _, i := range append(append([]int{}, all...), all...) {
+				for mm := 0; mm < 3; mm++ {
+					st = append(st, procStepT{Unit: i, Sender: "legit", M: mm})
+				}
+			}
+			st = append(st, procStepT{Unit: 0, Corrupt: "garbage", Sender: "legit", Variant: m})
+			sc := mk(n, m%2, 1-m%2, 20+m, st)
+			sc.ModelOnly = true
+			scs = append(scs, sc)
+		}
+	}
+	raceEval(h, scs, bin)
+}
+
+// raceEval runs the scenarios on the -race child and reports what the detector says.
+func raceEval(h *hctx, scs []*procScenario, bin string) {
+	plain := childBin
+	childBin = bin
+	os.Setenv("GORACE", "halt_on_error=1 exitcode=66")
+	runs := runProcChildren(scs)
+	os.Unsetenv("GORACE")
+	childBin = plain
+	for i, pr := range runs {
+		h.res.Case(fmt.Sprintf("proc-race/%d", i), true)
+		if pr.machinery != "" {
+			h.res.Fatalf("race child: %s", pr.machinery)
+			return
+		}
+		if strings.Contains(pr.stderr, "WARNING: DATA RACE") {
+			h.res.Hit("proc-race:data-race")
+			var frames []string
+			for _, l := range strings.Split(pr.stderr, "\n") {
+				l = strings.TrimSpace(l)
+				if strings.HasPrefix(l, "Write at") || strings.HasPrefix(l, "Read at") || strings.HasPrefix(l, "Previous ") ||
+					strings.Contains(l, "consensus/propeller.") || strings.Contains(l, "consensus/propeller/") {
+					frames = append(frames, l)
+				}
+				if len(frames) >= 12 {
+					break
+				}
+			}
+			inPropeller := strings.Contains(strings.Join(frames, " "), "consensus/propeller.")
+			if inPropeller {
+				h.violate("processor-data-race", fmt.Sprintf("Go's race detector on the real Processor (n=%d, units of three messages, each twice): %s",
+					scs[i].N, clip(strings.Join(frames, " | "))), map[string]any{"kind": "processor", "scenario": slimScenario(scs[i]), "race": true})
+			} else {
+				h.res.Fatalf("race child: a data race outside consensus/propeller (in the harness?): %s", clip(pr.stderr))
+			}
+			continue
+		}
+		if pr.crashed {
+			h.violate("processor-goroutine-panics", fmt.Sprintf("the process dies under the race detector (n=%d): %s", scs[i].N, clip(firstPanicLines(pr.stderr))),
+				map[string]any{"kind": "processor", "scenario": slimScenario(scs[i]), "race": true})
+			continue
+		}
+		h.res.Hit("proc-race:clean")
+	}
+}
+
+// buildRaceChild builds this harness once more with -race (same module setup as the main binary).
+func buildRaceChild() (string, error) {
+	verif, err := os.Getwd()
+	if err != nil {
+		return "", err
+	}
+	repo := os.Getenv("VERIF_REPO")
+	tag := ""
+	args := []string{"build", "-race"}
+	if repo != "" && repo != "/repo" {
+		tag = "-" + fmt.Sprintf("%x", sha1.Sum([]byte(repo)))[:8]
+		args = append(args, "-modfile="+verif+"/.build/go"+tag+".mod")
+	}
+	bin := verif + "/.build/vh-c19-race" + tag
+	args = append(args, "-tags", "verif", "-o", bin, "./cmd/c19")
+	b := exec.Command("go", args...)
+	b.Dir = verif + "/harness"
+	if out, err := b.CombinedOutput(); err != nil {
+		return "", fmt.Errorf("go %s: %v\n%s", strings.Join(args, " "), err, clip(string(out)))
+	}
+	return bin, nil
 }
 
 // evalOnce: the scenarios (Once mode: every unit handed over exactly once) on fresh processors;
